@@ -26,7 +26,8 @@
     4. `message_forward_step`, `message_forward`, `row_eq_log_msg`; and the full forward-algorithm correctness
        `message_eq_joint_test`, `message_eq_joint`, `evidence_eq_joint`, `posterior_exact`,
        `posterior_exact_gaussian` (sum over explicit changepoint configurations)
-    5. `pred_step`, `pred_mixture`; finding `pred_mixture_stale_witness`
+    5. `pred_step`, `pred_mixture` (weights = CURRENT row, every run length `0..t`), `pred_mixture_posterior`
+       (weights = exact posterior, convex combination), `pred_mean_first`
 -/
 import FrourosProofs.RealNum
 import FrourosProofs.Machines
@@ -754,65 +755,136 @@ example : Real.exp (runUpd exFns (exCfg (1/4)) [1, 2, 5]).row[2] =
 example : allConfigs 2 = [[true, true], [true, false], [false, true], [false, false]] ∧
     (allConfigs 3).filter (fun bs => decide (runLen bs = 2)) = [[false, false, true]] := by decide
 
-/- SECTION 5 TEMPORARILY DISABLED: the model now takes the predictions from the CURRENT row (repair of the Python code); being re-proved.
 /-! ## 5. Predictive mean / variance -/
 
-/-- one step: the predictions are the truncating `zipWith` of `exp (previous row)` against the NEW parameters -/
+/-- one step from ANY state: the predictions are the `zipWith` of `exp (CURRENT row)` (the freshly normalised
+row of the returned state) against the NEW parameters of the returned state.  Under `LenInv` both lists have
+length `n+1`, so nothing is truncated (see `pred_mixture`). -/
 theorem pred_step (f : Fns ℝ) (c : Cfg ℝ) (s : State ℝ) (v : ℝ) :
-    (step f c s v).predMean = some (List.zipWith (· * ·) (s.row.map Real.exp) (step f c s v).means).sum ∧
-    (step f c s v).predVar = some (List.zipWith (· * ·) (s.row.map Real.exp)
+    (step f c s v).predMean =
+      some (List.zipWith (· * ·) ((step f c s v).row.map Real.exp) (step f c s v).means).sum ∧
+    (step f c s v).predVar = some (List.zipWith (· * ·) ((step f c s v).row.map Real.exp)
         ((step f c s v).precs.map (fun p => 1 / p + c.dataVar))).sum := by
   constructor
   · show some (sumList _) = _
     rw [sumList_eq]; rfl
-  · show some (sumList _) = _
-    rw [sumList_eq, step_precs]
-    simp only [varParams, RealNum.one_eq]
+  · have hv : ∀ l : List ℝ, varParams c l = l.map (fun p => 1 / p + c.dataVar) := fun l => by
+      simp only [varParams, RealNum.one_eq]
+    show some (sumList (List.zipWith (· * ·) ((step f c s v).row.map Num.exp)
+      (varParams c (step f c s v).precs))) = _
+    rw [sumList_eq, hv]
     rfl
 
-/-- **5. Predictive mean / variance as a mixture** (`t = xs.length + 1` updates, the last one being `v`):
-`predMean = Σ_{r<t} exp(prevRow[r])·means_new[r]`, `predVar = Σ_{r<t} exp(prevRow[r])·(1/precs_new[r] + dataVar)`
-with the closed forms of 1 for the NEW parameters (`meanAt c (xs ++ [v]) r`, `precAt c r`).  The sum ranges over the
-indices of the previous row (`t` of them); the model's `zipWith` silently drops the last new parameter (run
-length `t`).  See `pred_mixture_stale_witness` for what this means. -/
+/-- **5. Predictive mean / variance as a mixture** (`t = xs.length + 1` updates, the last one being `v`).  With
+`R` the CURRENT row (length `t+1 = xs.length + 2`):
+`predMean = Σ_{r≤t} exp(R[r])·meanAt c (xs ++ [v]) r`, `predVar = Σ_{r≤t} exp(R[r])·(1/precAt c r + dataVar)`,
+i.e. the closed-form parameters of 1 for EVERY run length `0..t`, weighted by the current posterior row; the sum
+ranges over all indices of `R`, no parameter is dropped.  Hypotheses `0 < priorVar`, `0 < dataVar` as in
+`params_closed_form`; `f` is arbitrary. -/
 theorem pred_mixture (f : Fns ℝ) (c : Cfg ℝ) (hpv : 0 < c.priorVar) (hdv : 0 < c.dataVar) (xs : List ℝ) (v : ℝ) :
-    (runUpd f c xs).row.length = xs.length + 1 ∧
+    (runUpd f c (xs ++ [v])).row.length = xs.length + 2 ∧
     (runUpd f c (xs ++ [v])).predMean =
-      some (∑ r : Fin (runUpd f c xs).row.length, Real.exp (runUpd f c xs).row[r] * meanAt c (xs ++ [v]) r) ∧
+      some (∑ r : Fin (runUpd f c (xs ++ [v])).row.length,
+        Real.exp (runUpd f c (xs ++ [v])).row[r] * meanAt c (xs ++ [v]) r) ∧
     (runUpd f c (xs ++ [v])).predVar =
-      some (∑ r : Fin (runUpd f c xs).row.length, Real.exp (runUpd f c xs).row[r] * (1 / precAt c r + c.dataVar)) := by
+      some (∑ r : Fin (runUpd f c (xs ++ [v])).row.length,
+        Real.exp (runUpd f c (xs ++ [v])).row[r] * (1 / precAt c r + c.dataVar)) := by
   obtain ⟨hp, hm⟩ := params_closed_form f c hpv hdv (xs ++ [v])
-  have hlen : (runUpd f c xs).row.length = xs.length + 1 := by
-    rw [(lenInv_runUpd f c xs).1, runUpd_n]
-  have hlen' : ((runUpd f c xs).row.map Real.exp).length = (List.range (xs.length + 1)).length := by simp [hlen]
+  have hlen : (runUpd f c (xs ++ [v])).row.length = (xs ++ [v]).length + 1 := by
+    rw [(lenInv_runUpd f c (xs ++ [v])).1, runUpd_n]
   obtain ⟨h1, h2⟩ := pred_step f c (runUpd f c xs) v
   rw [← runUpd_snoc] at h1 h2
-  have hr : List.range ((xs ++ [v]).length + 1) = List.range (xs.length + 1) ++ [xs.length + 1] := by
-    rw [List.length_append, List.length_singleton, List.range_succ]
-  refine ⟨hlen, ?_, ?_⟩
-  · rw [h1, hm, hr, List.map_append,
-      zipWith_append_right_of_length _ _ _ _ (by simpa using hlen'), List.zipWith_map_right, ← hlen,
-      sum_zipWith_map_range]
-  · rw [h2, hp, hr, List.map_append, List.map_append,
-      zipWith_append_right_of_length _ _ _ _ (by simpa using hlen'), List.map_map, List.zipWith_map_right, ← hlen,
-      sum_zipWith_map_range]
+  refine ⟨by rw [hlen]; simp, ?_, ?_⟩
+  · rw [h1, hm, List.zipWith_map_right, ← hlen, sum_zipWith_map_range]
+  · rw [h2, hp, List.map_map, List.zipWith_map_right, ← hlen, sum_zipWith_map_range]
     rfl
 
-/-- **Finding (witness).**  The mixture of `pred_mixture` pairs the PREVIOUS posterior `exp(row_{t-1}[r])`
-with the parameters obtained AFTER absorbing `x_t`, and drops the longest run.  Concretely, after the first
-observation `v` the reported predictive mean is the prior mean, whatever `v` is (the exact posterior-predictive mean
-would be `h·priorMean + (1-h)·meanAt [v] 1`, which does depend on `v`). -/
-theorem pred_mixture_stale_witness (f : Fns ℝ) (c : Cfg ℝ) (hpv : 0 < c.priorVar) (hdv : 0 < c.dataVar) (v : ℝ) :
-    (runUpd f c [v]).predMean = some c.priorMean := by
-  obtain ⟨h1, _⟩ := pred_step f c (runUpd f c []) v
+/-- the exact run-length posterior `P(r_t = r | x_{1:t})` (`t = ys.length`, `ys` oldest first) of the
+model-independent Gaussian changepoint model `specJoint` (the right-hand side of `posterior_exact_gaussian`) -/
+noncomputable def postW (c : Cfg ℝ) (h : ℝ) (ys : List ℝ) (r : ℕ) : ℝ :=
+  (((allConfigs ys.length).filter (fun bs => decide (runLen bs = r))).map (specJoint c h ys.reverse)).sum /
+    ((allConfigs ys.length).map (specJoint c h ys.reverse)).sum
+
+/-- **5. The predictions are the posterior-weighted mixture.**  Under the hypotheses of
+`posterior_exact_gaussian` the weights of `pred_mixture` are the exact posterior
+`postW c h (xs ++ [v]) r = P(r_t = r | x_{1:t})` (`t = xs.length + 1`, `r = 0..t`), they are positive and sum to 1:
+`predMean` is a convex combination of the per-run-length posterior means `meanAt c (xs ++ [v]) r`, `predVar` the
+same combination of the per-run-length predictive variances `1/precAt c r + dataVar`. -/
+theorem pred_mixture_posterior (f : Fns ℝ) (hLSE : LSESpec f) (c : Cfg ℝ) (h : ℝ) (h0 : 0 < h) (h1 : h < 1)
+    (hH : c.logH = Real.log h) (h1H : c.log1mH = Real.log (1 - h)) (hpv : 0 < c.priorVar) (hdv : 0 < c.dataVar)
+    (xs : List ℝ) (v : ℝ) :
+    (runUpd f c (xs ++ [v])).predMean =
+      some (∑ r ∈ Finset.range (xs.length + 2), postW c h (xs ++ [v]) r * meanAt c (xs ++ [v]) r) ∧
+    (runUpd f c (xs ++ [v])).predVar =
+      some (∑ r ∈ Finset.range (xs.length + 2), postW c h (xs ++ [v]) r * (1 / precAt c r + c.dataVar)) ∧
+    (∀ r ∈ Finset.range (xs.length + 2), 0 < postW c h (xs ++ [v]) r) ∧
+    ∑ r ∈ Finset.range (xs.length + 2), postW c h (xs ++ [v]) r = 1 := by
+  obtain ⟨hlen, hM, hV⟩ := pred_mixture f c hpv hdv xs v
+  have hw : ∀ r (hr : r < (runUpd f c (xs ++ [v])).row.length),
+      Real.exp (runUpd f c (xs ++ [v])).row[r] = postW c h (xs ++ [v]) r := fun r hr =>
+    posterior_exact_gaussian f hLSE c h h0 h1 hH h1H hpv hdv (xs ++ [v]) r hr
+  have hconv : ∀ g : ℕ → ℝ,
+      ∑ r : Fin (runUpd f c (xs ++ [v])).row.length, Real.exp (runUpd f c (xs ++ [v])).row[r] * g r =
+        ∑ r ∈ Finset.range (xs.length + 2), postW c h (xs ++ [v]) r * g r := by
+    intro g
+    rw [← hlen, ← Fin.sum_univ_eq_sum_range (fun r => postW c h (xs ++ [v]) r * g r)]
+    exact Finset.sum_congr rfl (fun r _ => by rw [← hw r r.isLt]; rfl)
+  refine ⟨by rw [hM, hconv], by rw [hV, hconv (fun r => 1 / precAt c r + c.dataVar)], ?_, ?_⟩
+  · intro r hr
+    rw [Finset.mem_range, ← hlen] at hr
+    rw [← hw r hr]
+    exact Real.exp_pos _
+  · have hn := (row_normalised f hLSE c (runUpd_reachable f c (xs ++ [v]))).1
+    have := hconv (fun _ => 1)
+    simp only [mul_one] at this
+    rw [← this, ← hn, ← sum_zipWith_map_range _ Real.exp (fun a _ => a),
+      zipWith_const_right (fun m => m) _ _ (by simp), List.map_map]
+    rfl
+
+/-- **5, first observation.**  After ONE observation `v` the posterior is `[h, 1-h]` (`row_after_one`) and the
+predictions are `predMean = h·priorMean + (1-h)·meanAt c [v] 1`,
+`predVar = h·(priorVar + dataVar) + (1-h)·(1/precAt c 1 + dataVar)`, where
+`meanAt c [v] 1 = (priorMean/priorVar + v/dataVar) / (1/priorVar + 1/dataVar)` does depend on `v` (before the
+repair of the weights the reported mean was `priorMean` whatever `v` was). -/
+theorem pred_mean_first (f : Fns ℝ) (hLSE : LSESpec f) (c : Cfg ℝ) (h : ℝ) (h0 : 0 < h) (h1 : h < 1)
+    (hH : c.logH = Real.log h) (h1H : c.log1mH = Real.log (1 - h)) (hpv : 0 < c.priorVar) (hdv : 0 < c.dataVar)
+    (v : ℝ) :
+    (runUpd f c [v]).predMean = some (h * c.priorMean + (1 - h) * meanAt c [v] 1) ∧
+    (runUpd f c [v]).predVar =
+      some (h * (c.priorVar + c.dataVar) + (1 - h) * (1 / precAt c 1 + c.dataVar)) ∧
+    meanAt c [v] 1 = (c.priorMean / c.priorVar + v / c.dataVar) / (1 / c.priorVar + 1 / c.dataVar) := by
+  obtain ⟨hM, hV⟩ := pred_step f c (runUpd f c []) v
   have e : step f c (runUpd f c []) v = runUpd f c [v] := rfl
-  rw [e] at h1
-  rw [h1, (params_closed_form f c hpv hdv [v]).2]
-  simp [runUpd, init, meanAt_zero c hpv, map_range_succ]
+  rw [e] at hM hV
+  obtain ⟨hp, hm⟩ := params_closed_form f c hpv hdv [v]
+  have hrow := row_after_one f hLSE c h h0 h1 hH h1H hpv hdv v
+  have h1' : 0 < 1 - h := by linarith
+  refine ⟨?_, ?_, ?_⟩
+  · rw [hM, hm, hrow]
+    simp [List.range_succ, meanAt_zero c hpv, Real.exp_log h0, Real.exp_log h1']
+  · rw [hV, hp, hrow]
+    have hp0 : (precAt c 0)⁻¹ = c.priorVar := by simp [precAt]
+    simp [List.range_succ, Real.exp_log h0, Real.exp_log h1', hp0]
+  · simp [meanAt, precAt]
 
+/-! Non-vacuity of section 5 on the concrete instance `exFns`, `exCfg (1/4)`. -/
+example := pred_step exFns (exCfg (1/4)) (runUpd exFns (exCfg (1/4)) [1, 2]) 5
 example := pred_mixture exFns (exCfg (1/4)) (by norm_num [exCfg]) (by norm_num [exCfg]) [1, 2] 5
+example := pred_mixture_posterior exFns exFns_spec (exCfg (1/4)) (1/4) (by norm_num) (by norm_num) rfl rfl
+  (by norm_num [exCfg]) (by norm_num [exCfg]) [1, 2] 5
 
--/
+/-- concrete numbers (prior `N(0,1)`, unit data variance, hazard `1/4`): the predictive mean after one
+observation follows the observation (`3/4` for `v = 2`, `3/2` for `v = 4`; the prior mean is `0`) -/
+example : (runUpd exFns (exCfg (1/4)) [2]).predMean = some (3/4) ∧
+    (runUpd exFns (exCfg (1/4)) [4]).predMean = some (3/2) ∧
+    (runUpd exFns (exCfg (1/4)) [2]).predVar = some (13/8) := by
+  have H := fun v => pred_mean_first exFns exFns_spec (exCfg (1/4)) (1/4) (by norm_num) (by norm_num) rfl rfl
+    (by norm_num [exCfg]) (by norm_num [exCfg]) v
+  refine ⟨?_, ?_, ?_⟩
+  · rw [(H 2).1, (H 2).2.2]; norm_num [exCfg]
+  · rw [(H 4).1, (H 4).2.2]; norm_num [exCfg]
+  · rw [(H 2).2.1]; norm_num [exCfg, precAt]
+
 /-! ## Axiom audit -/
 #print axioms lenInv_reachable
 #print axioms run_since_reset
@@ -837,5 +909,9 @@ example := pred_mixture exFns (exCfg (1/4)) (by norm_num [exCfg]) (by norm_num [
 #print axioms posterior_exact
 #print axioms joint_ratio_logC_indep
 #print axioms posterior_exact_gaussian
+#print axioms pred_step
+#print axioms pred_mixture
+#print axioms pred_mixture_posterior
+#print axioms pred_mean_first
 
 end Frouros.C08
